@@ -21,6 +21,31 @@ def F(fuzz, seconds):
 
 
 CHECKS = {
+    'C01': dict(
+        level='exploration',
+        units=[U('^TestC01$', (4, 4000), (16, 150000))],
+        essential_labels=['mapping:log', 'mapping:linear', 'mapping:cubic', 'pos:dense', 'pos:sparse', 'pos:paginated', 'has-neg', 'has-zero', 'has-submin', 'has-edge-value', 'extreme-magnitude', 'q-on-integer-rank', 'interior-q-across-bins', 'custom-offset'],
+        assumptions=COMMON_ASSUMPTIONS + ["floating-point slack 64*2^-52*(1+|ln v|+(|i|+|offset|)*ln gamma) is allowed on top of alpha (DESIGN §1.1)", "dense/paginated sketches draw values from an index window of at most 2^14 bins (memory)"],
+    ),
+    'C04': dict(
+        level='exploration',
+        units=[
+            U('^TestC04_Dense$', (2, 400, 50), (5, 8000, 120)),
+            U('^TestC04_Sparse$', (2, 400, 50), (5, 8000, 120)),
+            U('^TestC04_Paginated$', (2, 400, 50), (6, 8000, 120)),
+        ],
+        essential_labels=['kind:dense', 'kind:sparse', 'kind:paginated', 'event:array-shift', 'event:page-created', 'event:buffer-compacted', 'op:merge', 'op:encdec', 'op:proto', 'op:reweight', 'op:copy', 'op:clear'],
+        assumptions=COMMON_ASSUMPTIONS + ["weights are dyadic and bounded so that every float64 partial sum is exact (DESIGN §1.1); index spans are capped per store kind by memory"],
+    ),
+    'C05': dict(
+        level='exploration',
+        units=[
+            U('^TestC05_Stores$', (4, 1000, 50), (12, 15000, 120)),
+            U('^TestC05_Sketch$', (2, 600), (4, 15000)),
+        ],
+        essential_labels=['kind:collow', 'kind:colhigh', 'folded', 'op-after-fold', 'merge-same-kind', 'merge-wide-into-empty', 'add-beyond-edge-after-collapse'],
+        assumptions=COMMON_ASSUMPTIONS + ["fold(M,N) model: folding is history-independent (DESIGN §2 C05); dyadic weights"],
+    ),
     'C18': dict(
         level='exploration',
         units=[
